@@ -98,7 +98,9 @@ def check_escape_tables(P, ctx):
                 if ir.callee_name(c) == 'print_to_with' and ir.top_nocast(c[2][2]) == ('str', '%c'):
                     tp = ir.as_tuple(c[2][3])
                     st = ir.as_stack(tp[0]) if tp and len(tp) == 1 else None
-                    okd = st is not None and st[0] == 'Int' and ir.nocast(st[1][0])[0] == 'un' and ir.nocast(st[1][0])[1] == '*'
+                    # the character printed is the one the switch dispatched on (whatever temporaries carry it)
+                    NXs = util.Norm(P, fs, expand_locals=True)
+                    okd = st is not None and st[0] == 'Int' and NXs.canon(st[1][0]) == NXs.canon(sws[0]['expr'])
     ctx.check(okd, rule, 'String_Show:plain', site(fs), 'every other character is written as itself')
     ctx.floor(rule, 3)
     return swl[0]
